@@ -11,7 +11,11 @@ import time
 
 VERIF = os.path.dirname(os.path.dirname(os.path.abspath(__file__)))
 SPEC = os.path.join(VERIF, "spec")
-HARNESS = os.path.join(VERIF, "harness")
+# VERIF_ALT_ROOT relocates harness / work / evidence (used only to evaluate seeded changes on a
+# scratch copy of the repository while other checks keep running against /repo)
+ALT = os.environ.get("VERIF_ALT_ROOT")
+OUT_ROOT = ALT if ALT else VERIF
+HARNESS = os.path.join(OUT_ROOT, "harness")
 HARNESS_BIN = os.path.join(HARNESS, "target", "debug", "verif-harness")
 TLA_CP = "/opt/veriftools/tla/tla2tools.jar:/opt/veriftools/tla/CommunityModules-deps.jar"
 
@@ -39,7 +43,7 @@ class Ctx:
         self.tier = tier
         self.seed = seed
         self.t0 = time.time()
-        self.work = os.path.join(VERIF, "work", prop)
+        self.work = os.path.join(OUT_ROOT, "work", prop)
         shutil.rmtree(self.work, ignore_errors=True)
         os.makedirs(self.work, exist_ok=True)
         self.states = 0
@@ -235,8 +239,8 @@ class Ctx:
             "wall_s": round(time.time() - self.t0, 1),
             "violations": len(self.violations),
         }
-        os.makedirs(os.path.join(VERIF, "evidence"), exist_ok=True)
-        with open(os.path.join(VERIF, "evidence", self.prop + ".json"), "w") as f:
+        os.makedirs(os.path.join(OUT_ROOT, "evidence"), exist_ok=True)
+        with open(os.path.join(OUT_ROOT, "evidence", self.prop + ".json"), "w") as f:
             json.dump(ev, f, indent=1, sort_keys=True)
         if self.violations:
             seen = set()
